@@ -257,9 +257,14 @@ class ExecGen:
         for _ in range(ch.count(1, 3 if depth else 5)):
             k = ch.weighted([(8, "simple"), (2, "if1"), (2, "ifthen"), (1, "dowhile"), (1, "do"), (1, "select"),
                              (1, "associate"), (1, "blockc"), (1, "labelled"), (1, "cgoto"), (1, "format"),
-                             (1, "semi"), (1, "wherec")]) if depth < 2 else "simple"
+                             (1, "semi"), (1, "wherec"), (1, "doc")]) if depth < 2 else "simple"
             self.forms.add(k)
-            if k == "simple":
+            if k == "doc":
+                # a documentation comment among the executable statements: text, not code (the marker may be configured)
+                out.append({"text": "!" + getattr(self.s, "docmark", "!") + " formerly: call zz_doc_name(1); zz_doc_fun(2)",
+                            "nobreak": True})
+                out.append(self.simple())
+            elif k == "simple":
                 out.append(self.simple())
             elif k == "if1":
                 out.append(f"if ({self.lexpr()}) {self.simple(no_if=True)}")
@@ -426,19 +431,24 @@ def locals_for(scope, syms, ch, tag):
     return s
 
 
+DOCMARKS = [None, None, {"docmark": "!>", "predocmark": "!<", "docmark_alt": "!*", "predocmark_alt": "!|"}]
+
+
 def gen_case(ch: Chooser, excl=()):
-    proj, refs, feats, nontrivial = gen_model(ch, excl)
+    marks = ch.choice(DOCMARKS) if "multichar_docmark" not in excl else None
+    proj, refs, feats, nontrivial = gen_model(ch, excl, docmark=(marks or {}).get("docmark", "!"))
     text, used = render.render_project(proj, ch, features={"comments": True, "literal_split": "literal_split" not in excl})
-    return {"files": text, "refs": refs, "stub": "", "classes": sorted(feats), "nontrivial": nontrivial,
-            "n_orders": 1, "order_seed": 0}
+    return {"files": text, "refs": refs, "stub": "", "classes": sorted(feats) + (["docmark:multi-character"] if marks else []),
+            "nontrivial": nontrivial, "n_orders": 1, "order_seed": 0, "marks": marks}
 
 
-def gen_model(ch: Chooser, excl=(), assoc_from_unused_procs=False, assoc_pool=None):
+def gen_model(ch: Chooser, excl=(), assoc_from_unused_procs=False, assoc_pool=None, docmark="!"):
     feats = set()
     # module `lib` with procedures (and host data), used by a second module and a program
     lib = {"k": "module", "name": "lib", "uses": [], "default_access": None, "access_pos": "early", "decls": [],
            "procs": [], "doc": None}
     syms = Syms()
+    syms.docmark = docmark
     syms.no_objs = "type_bound" in excl
     sub_pool, fun_pool = ch.shuffle(SUB_NAMES), ch.shuffle(FUN_NAMES)
     for _ in range(ch.count(1, 3)):
@@ -595,7 +605,7 @@ def _check(case) -> Result:
     res.sample = {"files": case["files"], "expected_calls": [(r["scope"], r["expect"]) for r in case["refs"]]}
     try:
         with fordapi.Sandbox(case["files"], prefix="vfw-c08-") as root:
-            project, out = fordapi.parse_project(root, **FORD_OPTS)
+            project, out = fordapi.parse_project(root, **dict(FORD_OPTS, **(case.get("marks") or {})))
             for r in case["refs"]:
                 s = c06.find_scope(project, r["scope"])
                 if s is None:
